@@ -151,6 +151,36 @@ def lookupGrp : List (String × Grp) → Path → Option Grp
     | none => none
     | some g => if rest.isEmpty then some g else lookupGrp g.subs rest
 
+/-- kinds whose `_read` registers the array it has made in the memo under the group's `fieldname`
+(`TimeBase._read`, `PositionArray._read`, `PositionDeltaArray._read`; the plain kinds and sigma do not) -/
+def _root_.Midgard.Dataset.Kind.registers (k : Kind) : Bool :=
+  k == .time || k == .timeDelta || (attrName k).isSome
+
+/-- where `_read` finds the attribute `nm` of a group: a reference by name (the group of that name,
+looked up from the top of the file) or the embedded sub-group `nm`, whose memo name is
+`fieldname + [nm]` -/
+def refTarget (file : File) (a : GAttrs) (subs : List (String × Grp)) (nm : String) : Option (Path × Option Grp) :=
+  match a.ref with
+  | some name => some (name, lookupGrp file.groups name)
+  | none => match subs.lookup nm with
+    | some g => some (a.fieldname ++ [nm], some g)
+    | none => none
+
+/-- `if name in memo: memo[name] else: obj = <Array>._read(group, memo); memo[name] = obj` -/
+def readRef (rd : Grp → RSt → M (Nat × RSt)) (target : Option (Path × Option Grp)) (s : RSt) : M (Option Nat × RSt) :=
+  match target with
+  | none => .ok (none, s)
+  | some (name, og) =>
+    match s.memo.lookup name with
+    | some o => .ok (some o, s)
+    | none =>
+      match og with
+      | none => .error .attribute          -- KeyError
+      | some g =>
+        match rd g s with
+        | .error e => .error e
+        | .ok (o, s') => .ok (some o, s'.set name o)
+
 /-- `<Array>._read(h5_group, memo)`.  The attribute is a reference by name (looked up from the top of
 the file when the memo does not know it yet) or an embedded sub-group (read unless the memo already
 knows `fieldname + [attr]`); the array itself is registered under its `fieldname`. -/
@@ -166,26 +196,7 @@ def readArr (file : File) : Nat → Grp → RSt → M (Nat × RSt)
         -- `TimeBase._read` registers the object under its field name; the plain kinds do not
         .ok (o, if ob.kind == .time || ob.kind == .timeDelta then s1.set a.fieldname o else s1)
       | some nm =>
-        let target : Option (Path × Option Grp) :=
-          match a.ref with
-          | some name => some (name, lookupGrp file.groups name)
-          | none => match subs.lookup nm with
-            | some g => some (a.fieldname ++ [nm], some g)
-            | none => none
-        let refR : M (Option Nat × RSt) :=
-          match target with
-          | none => .ok (none, s)
-          | some (name, og) =>
-            match s.memo.lookup name with
-            | some o => .ok (some o, s)
-            | none =>
-              match og with
-              | none => .error .attribute          -- KeyError
-              | some g =>
-                match readArr file fuel g s with
-                | .error e => .error e
-                | .ok (o, s') => .ok (some o, s'.set name o)
-        match refR with
+        match readRef (readArr file fuel) (refTarget file a subs nm) s with
         | .error e => .error e
         | .ok (r, s1) =>
           if ob.kind.isDelta && r.isNone then .error .unsupported else   -- a delta needs its ref_pos
@@ -266,5 +277,78 @@ def restrictFields (lvl : Nat) : List Field → List Field
     match f with
     | .leaf .. => f :: restrictFields lvl fs
     | .coll nm no l sub => .coll nm no l (restrictFields lvl sub) :: restrictFields lvl fs
+
+/-! ### the round trip as the driver runs it, and which datasets "can be written" -/
+
+/-- nesting depth of a field list (a leaf counts 1, a collection 1 + its contents) -/
+def fieldsDepth : List Field → Nat
+  | [] => 0
+  | .leaf .. :: fs => max 1 (fieldsDepth fs)
+  | .coll _ _ _ sub :: fs => max (fieldsDepth sub + 1) (fieldsDepth fs)
+
+/-- `Dataset.read` of the file written for `d` out of heap `h`: the two recursion bounds of the model are
+the number of objects (no reference chain is longer) and the nesting depth of the collections -/
+def readBack (h : Heap) (d : DS) (file : File) : M (Heap × DS) :=
+  readDS (h.length + 1) (fieldsDepth d.fields + 1) file
+
+def _root_.Midgard.Dataset.Obj.normal (ob : Obj) : Bool :=
+  (ob.kind.hasOther || ob.other.isNone) && (ob.kind.isDelta || ob.refPos.isNone)
+
+/-- one array object: only the attribute of its class is set; a delta has its `ref_pos`; the attached
+object is older (objects are immutable: it existed when this one was made) and of a class that
+registers itself on `_read` (time, position, posvel and the deltas) -/
+def objOK (h : Heap) (o : Nat) (ob : Obj) : Bool :=
+  ob.normal && (!ob.kind.isDelta || ob.ref.isSome) &&
+  match ob.ref with
+  | none => true
+  | some x => decide (x < o) && match h[x]? with
+    | some t => t.kind.registers
+    | none => false
+
+def heapOK (h : Heap) : Bool :=
+  (List.range h.length).all (fun o => match h[o]? with
+    | some ob => objOK h o ob
+    | none => true)
+
+/-- a unit is absent or has a non-empty component (`("", "")` is read back as no unit) -/
+def unitOK : Option (List String) → Bool
+  | none => true
+  | some us => us.any (fun u => !u.isEmpty)
+
+/-- every field has its array, `num_obs` rows as it declares; a collection declares the `num_obs` of the
+dataset -/
+def fieldsOK (h : Heap) (n : Nat) : List Field → Bool
+  | [] => true
+  | .leaf _ _ o no u _ :: fs => decide (o < h.length) && no == objLen h o && unitOK u && fieldsOK h n fs
+  | .coll _ no _ sub :: fs => no == n && fieldsOK h n sub && fieldsOK h n fs
+
+/-- field names are unique in the dataset and in every collection (they are dict keys) -/
+def namesOK : List Field → Bool
+  | [] => true
+  | .leaf nm .. :: fs => !(names fs).contains nm && namesOK fs
+  | .coll nm _ _ sub :: fs => !(names fs).contains nm && namesOK sub && namesOK fs
+
+/-- the array objects of the fields, collections flattened, in field order -/
+def leafObjs : List Field → List Nat
+  | [] => []
+  | .leaf _ _ o _ _ _ :: fs => o :: leafObjs fs
+  | .coll _ _ _ sub :: fs => leafObjs sub ++ leafObjs fs
+
+def nodupB : List Nat → Bool
+  | [] => true
+  | x :: xs => !xs.contains x && nodupB xs
+
+/-- **"a dataset that can be written"** at level `lvl`, as a decidable predicate of the model: the heap is
+well formed (`heapOK`), and the fields that will be written are well formed (`fieldsOK`), have unique
+names and are pairwise different array objects (one array object held by two fields is written twice
+and read back as two objects: that sharing is outside the statement) -/
+def writableB (h : Heap) (d : DS) (lvl : Nat) : Bool :=
+  heapOK h && fieldsOK h d.numObs (restrictFields lvl d.fields) && namesOK (restrictFields lvl d.fields) &&
+    nodupB (leafObjs (restrictFields lvl d.fields))
+
+def Writable (h : Heap) (d : DS) (lvl : Nat) : Prop := writableB h d lvl = true
+
+instance (h : Heap) (d : DS) (lvl : Nat) : Decidable (Writable h d lvl) :=
+  inferInstanceAs (Decidable (writableB h d lvl = true))
 
 end Midgard.H5
